@@ -15,6 +15,7 @@ EXPLANATION = (
     "reachable) and PANIC over the generator code. NOT decided: that each item is actually printed, nor anything about bash "
     "executing the script (needs a shell)."
     " R16.2 (added): both possible_values helpers hand out the value parser's list as declared (callee whitelist)."
+    " R16.A accessor layer (lib/accessors.py): for the is_*_set / get_* accessors this property's rules name — the bool builder sets and unsets one flag on the right edges and the predicate reads that same flag; builder scope (global/local) as in audit/setting_scope.tsv; no two predicates/builders share a flag; setting/unset_setting/global_setting/is_set forward to the right flag word, the flag word is |=bit / &=!bit / &bit!=0 with bit = 1<<discriminant, _propagate_subcommand hands g_settings to the child's settings and g_settings; plain field getters return their field."
 )
 TRUSTED = ["rustc MIR", "clapfacts", "call-graph fan-out for trait calls", "audit/panic.tsv + audit/c16.tsv"]
 ASSUMPTIONS = ["Command::build() propagates bin names and builds all subcommands (C11 R11.1)"]
